@@ -14,10 +14,15 @@ import (
 	"verif/tool/gosym"
 )
 
-const (
-	VerifDir   = "/verif"
-	RepoModule = "github.com/acekingke/yaccgo"
-)
+const RepoModule = "github.com/acekingke/yaccgo"
+
+// VerifDir is /verif, unless VERIF_HOME points at a snapshot (background runs only).
+var VerifDir = func() string {
+	if d := os.Getenv("VERIF_HOME"); d != "" {
+		return d
+	}
+	return "/verif"
+}()
 
 // RepoDir is the tree under check: /repo, unless VERIF_REPO points at a scratch copy
 // (used only to try seeded changes and for background runs; registered commands use /repo).
